@@ -944,7 +944,8 @@ def _run_manager_from_cli_status(input_path, output_directory, validate_only, co
 
     if validate_only:
         try:
-            validate_input_file(input_path)
+            if validate_input_file(input_path) != 0:
+                return 1
             logger.info("Valid input file.")
             return 0
         except ValidationError:
